@@ -5,7 +5,7 @@ use std::collections::VecDeque;
 use std::ops::{Deref, DerefMut};
 use std::panic::Location;
 use std::sync::atomic::{AtomicBool, AtomicUsize, Ordering};
-use std::sync::{Arc, LockResult, PoisonError};
+use std::sync::{Arc, LockResult, PoisonError, TryLockError, TryLockResult};
 use std::time::Duration;
 
 fn fresh_id() -> usize {
@@ -58,17 +58,37 @@ impl<T: ?Sized> Mutex<T> {
         rt.yield_point(me);
         loop {
             if !self.locked.swap(true, Ordering::SeqCst) {
-                rt.log(me, format!("lock {}", self.site));
-                return;
+                break;
             }
             rt.block(me, Res::Mutex(self.id), None);
         }
+        // the thread may be preempted here, holding the mutex; the `lock` event marks the start of
+        // the part of the locked block that runs without interruption (every read the block makes
+        // of state that other threads change without the mutex happens after it)
+        rt.maybe_preempt(me);
+        rt.log(me, format!("lock {}", self.site));
     }
     pub fn lock(&self) -> LockResult<MutexGuard<'_, T>> {
         self.acquire();
         let g = MutexGuard { m: self, panicking_at_lock: std::thread::panicking() };
         if self.poisoned.load(Ordering::SeqCst) {
             Err(PoisonError::new(g))
+        } else {
+            Ok(g)
+        }
+    }
+    /// as std: never blocks; `WouldBlock` while another thread holds the lock
+    pub fn try_lock(&self) -> TryLockResult<MutexGuard<'_, T>> {
+        let (rt, me) = current();
+        rt.yield_point(me);
+        if self.locked.swap(true, Ordering::SeqCst) {
+            rt.log(me, format!("trylock-busy {}", self.site));
+            return Err(TryLockError::WouldBlock);
+        }
+        rt.log(me, format!("lock {}", self.site));
+        let g = MutexGuard { m: self, panicking_at_lock: std::thread::panicking() };
+        if self.poisoned.load(Ordering::SeqCst) {
+            Err(TryLockError::Poisoned(PoisonError::new(g)))
         } else {
             Ok(g)
         }
